@@ -2027,63 +2027,45 @@ End Real.
 Section TotalForceR.
   Local Open Scope R_scope.
 
-  Lemma tf_report_sub ft fold : ft <> 0 -> tf_report Rops true true ft fold = ft - fold.
-  Proof.
-    intros H. unfold tf_report. cbn [andb nltb nmul n0 nsub Rops].
-    assert (L : Rltb 0 (ft * ft) = true) by (apply Rltb_true; nra).
-    rewrite L. reflexivity.
-  Qed.
-
   Lemma tf_trace_spec hist : forall prev fold t s f x,
-    nth_error hist t = Some (s, f) -> s + f <> 0 ->
+    nth_error hist t = Some (s, f) ->
     nth_error (tf_trace Rops true true prev fold hist) (S t) = Some x -> x = s.
   Proof.
-    induction hist as [|[s0 f0] r IH]; intros prev fold t s f x Ht Hnz Hx; [destruct t; discriminate|].
+    induction hist as [|[s0 f0] r IH]; intros prev fold t s f x Ht Hx; [destruct t; discriminate|].
     cbn [tf_trace nth_error] in Hx.
     destruct t as [|t]; cbn [nth_error] in Ht.
     - inversion Ht; subst s0 f0. destruct r as [|[s1 f1] r']; [discriminate|].
       cbn [tf_trace nth_error] in Hx. inversion Hx; subst x.
-      unfold tf_end, engine_total. cbn [nadd Rops]. rewrite tf_report_sub by exact Hnz. lra.
-    - apply (IH _ _ t s f x Ht Hnz Hx).
+      unfold tf_report, tf_end, engine_total. cbn [andb nadd nsub Rops]. lra.
+    - apply (IH _ _ t s f x Ht Hx).
   Qed.
 
   (* the sample seen at step t+1 is the system force of step t, whatever Colvars applied *)
   Theorem total_force_coupling (hA hB : list (R * R)) t sA fA sB fB xA xB :
     map fst hA = map fst hB ->
     nth_error hA t = Some (sA, fA) -> nth_error hB t = Some (sB, fB) ->
-    sA + fA <> 0 -> sB + fB <> 0 ->
     nth_error (tf_trace Rops true true None 0 hA) (S t) = Some xA ->
     nth_error (tf_trace Rops true true None 0 hB) (S t) = Some xB ->
     xA = xB /\ xA = sA.
   Proof.
-    intros Hs HA HB NA NB XA XB.
-    pose proof (tf_trace_spec hA None 0 t sA fA xA HA NA XA) as E1.
-    pose proof (tf_trace_spec hB None 0 t sB fB xB HB NB XB) as E2.
+    intros Hs HA HB XA XB.
+    pose proof (tf_trace_spec hA None 0 t sA fA xA HA XA) as E1.
+    pose proof (tf_trace_spec hB None 0 t sB fB xB HB XB) as E2.
     assert (E : sA = sB).
     { pose proof (map_nth_error fst t hA HA) as M1. pose proof (map_nth_error fst t hB HB) as M2.
       rewrite Hs in M1. rewrite M1 in M2. cbn in M2. inversion M2; reflexivity. }
     split; [congruence | exact E1].
   Qed.
 
-  (* when the engine's total force is exactly zero the applied force is not subtracted *)
-  Lemma total_force_coupling_zero :
-    exists (h : list (R * R)) s f x,
-      nth_error h 0 = Some (s, f) /\ s + f = 0 /\
-      nth_error (tf_trace Rops true true None 0 h) 1 = Some x /\ x <> s.
-  Proof.
-    exists [(1, -1); (0, 0)], 1, (-1), 0. repeat split; try reflexivity; try lra.
-    cbn [tf_trace nth_error]. unfold tf_report, engine_total, tf_end. cbn [andb nltb nmul n0 nsub nadd Rops].
-    assert (L : Rltb 0 ((1 + -1) * (1 + -1)) = false) by (apply Rltb_false; lra).
-    rewrite L. f_equal. lra.
-  Qed.
+  (* premises are satisfiable, including a delivered force that is exactly zero (1 + -1) *)
   Lemma total_force_coupling_premises_sat :
     exists (hA hB : list (R * R)) t sA fA sB fB xA xB,
       map fst hA = map fst hB /\ nth_error hA t = Some (sA, fA) /\ nth_error hB t = Some (sB, fB) /\
-      sA + fA <> 0 /\ sB + fB <> 0 /\
+      sA + fA = 0 /\
       nth_error (tf_trace Rops true true None 0 hA) (S t) = Some xA /\
       nth_error (tf_trace Rops true true None 0 hB) (S t) = Some xB.
   Proof.
-    exists [(1, 1); (0, 0)], [(1, 2); (0, 0)], 0%nat, 1, 1, 1, 2.
+    exists [(1, -1); (0, 0)], [(1, 2); (0, 0)], 0%nat, 1, (-1), 1, 2.
     eexists. eexists. repeat split; try reflexivity; cbn; lra.
   Qed.
 End TotalForceR.
